@@ -4,6 +4,7 @@ import (
 	"fmt"
 	"os"
 	"reflect"
+	"sort"
 	"testing"
 
 	zap "github.com/blevesearch/zapx/v16"
@@ -57,6 +58,23 @@ func genPlanCase(t *rapid.T, o planGenOpts) planCase {
 	p := s.GenPlan(t, "p", po)
 	if gen.Chance(t, "uniform", 50) {
 		s.Uniform(p)
+	}
+	if gen.Chance(t, "sameIDInTwoLeaves", 25) {
+		// the same external id in two inputs (an updated document whose older copy is, or is not,
+		// deleted by the merge): its _id term then has two documents while its neighbours have one
+		var leaves []*spec.MergePlan
+		walkPlan(p, func(n *spec.MergePlan) {
+			if n.IsLeaf() && len(n.Leaf.Docs) > 0 {
+				leaves = append(leaves, n)
+			}
+		})
+		if len(leaves) >= 2 {
+			a := rapid.IntRange(0, len(leaves)-2).Draw(t, "dupLeafA")
+			b := rapid.IntRange(a+1, len(leaves)-1).Draw(t, "dupLeafB")
+			da := rapid.IntRange(0, len(leaves[a].Leaf.Docs)-1).Draw(t, "dupDocA")
+			db := rapid.IntRange(0, len(leaves[b].Leaf.Docs)-1).Draw(t, "dupDocB")
+			leaves[b].Leaf.Docs[db].ID = leaves[a].Leaf.Docs[da].ID
+		}
 	}
 	return planCase{Plan: p}
 }
@@ -162,7 +180,18 @@ func runPlanCase(c planCase, o planCheckOpts) *Violation {
 			for id := range ids {
 				list = append(list, spec.B(id))
 			}
-			if v := checkStoredSurface(prop, node.Seg, want, [][]spec.B{list}); v != nil {
+			sort.Slice(list, func(i, j int) bool { return list[i] < list[j] })
+			rev := make([]spec.B, len(list))
+			for i := range list {
+				rev[len(list)-1-i] = list[i]
+			}
+			// document order of the survivors (so ids of multi-document terms precede and follow
+			// ids of single-document terms in both directions)
+			var byDoc []spec.B
+			for n := range want.Stored {
+				byDoc = append(byDoc, spec.B(want.Stored[n][0].Val))
+			}
+			if v := checkStoredSurface(prop, node.Seg, want, [][]spec.B{list, rev, byDoc}); v != nil {
 				v.Signature = "merge/" + zs + v.Signature
 				v.Message = tag + ": " + v.Message
 				return v
